@@ -7,6 +7,15 @@ Import ListNotations.
 Theorem gen_edges_are_first_two adjacency : gen_edges_of adjacency = map (fun t => [fst (fst t); snd (fst t)]) adjacency.
 Proof. unfold gen_edges_of. apply map_ext. intros t. reflexivity. Qed.
 
+(* the size test of the tail, whatever its spelling (`> 1`, `>= 2`): more than one member *)
+Lemma gen_keep_size_spec n : gen_keep_size n = true <-> 1 < n.
+Proof.
+  destruct (gen_keep_size n) eqn:E; unfold gen_keep_size in E;
+    first [apply Nat.ltb_lt in E | apply Nat.leb_le in E | apply Nat.ltb_ge in E | apply Nat.leb_gt in E
+          | (apply Bool.negb_true_iff in E; apply Nat.eqb_neq in E) | (apply Bool.negb_false_iff in E; apply Nat.eqb_eq in E)];
+    split; intros H; try reflexivity; try discriminate; try lia.
+Qed.
+
 (* what igraph's weakly connected components are assumed to return: a label per vertex, equal exactly inside a component *)
 Definition cc_labelling (n : nat) (E : list edge) (lab : list nat) : Prop :=
   length lab = n /\ forall u v, u < n -> v < n -> (nth u lab 0 = nth v lab 0 <-> connected E u v).
@@ -19,8 +28,8 @@ Theorem gen_cluster_tail_spec n E lab u c : cc_labelling n E lab ->
   (In (u, c) (gen_cluster_tail (seq 0 n) lab) <->
    u < n /\ c = nth u lab 0 /\ exists v, v < n /\ v <> u /\ connected E u v).
 Proof.
-  intros [Hlen Hcc]. unfold gen_cluster_tail, gen_keep_size. rewrite filter_In.
-  rewrite (in_combine_seq lab n u c Hlen). cbn [snd]. rewrite Nat.ltb_lt. split.
+  intros [Hlen Hcc]. unfold gen_cluster_tail. rewrite filter_In.
+  rewrite (in_combine_seq lab n u c Hlen). cbn [snd]. rewrite gen_keep_size_spec. split.
   - intros [[Hu Hc] Hcnt]. split; [exact Hu|]. split; [exact Hc|]. subst c.
     apply count_occ_two in Hcnt; [|rewrite Hlen; exact Hu].
     destruct Hcnt as (v & Hv & Hvu & Hnth). rewrite Hlen in Hv.
@@ -32,7 +41,10 @@ Qed.
 
 (* on the model's own labelling the tail as written IS the model's graph_cc *)
 Theorem gen_cluster_tail_model n E : gen_cluster_tail (seq 0 n) (components n E) = graph_cc n E.
-Proof. reflexivity. Qed.
+Proof.
+  unfold gen_cluster_tail, graph_cc, cluster_size. apply filter_ext. intros p.
+  apply Bool.eq_true_iff_eq. rewrite gen_keep_size_spec, Nat.ltb_lt. reflexivity.
+Qed.
 
 (* the caller's node labels ride along: the table for labels f(0), .., f(n-1) is the table for positions with f applied *)
 Theorem gen_cluster_tail_labels {L} (f : nat -> L) n lab :
